@@ -94,8 +94,15 @@ class CacheModel:
                 self.evict = [cands[0]]
         if len(self.evict) != 1:
             raise AnalysisError("MemoryCache: expected exactly one method deleting from the resident map, found %s" % [m.qual for m in self.evict])
-        if len(self.insert) != 1:
-            raise AnalysisError("MemoryCache: expected exactly one method inserting into the resident map, found %s" % [m.qual for m in self.insert])
+        if not self.insert:
+            raise AnalysisError("MemoryCache: no method inserts into the resident map")
+        # `put` is the public write API (pinned by StorageBackendBase.memoize and the tests); any other
+        # inserting method is held to the same insertion rules (budget, accounting)
+        self.inserts = list(self.insert)
+        puts = [m for m in self.insert if m.name == "put"]
+        if len(puts) != 1:
+            raise AnalysisError("MemoryCache.put does not insert into the resident map (inserting methods: %s)" % [m.qual for m in self.insert])
+        self.insert = puts
         if len(self.mark_used) != 1:
             raise AnalysisError("MemoryCache: expected exactly one mark-used helper, found %s" % [m.qual for m in self.mark_used])
         self.evict = self.evict[0]
